@@ -704,8 +704,8 @@ V('c13-twin-window-flipped', 'C13', 'C13.HISTORY', HIS, "        if now - than >
 
 # ---------------------------------------------------------------- C16
 V('c16-data-updated-before-test', 'C16', 'C16.GUARD', LSF,
-  "    ) -> None:\n        if (\n            self.data == data\n            and (now - _DUPLICATE_PACKET_SUPPRESSION_INTERVAL) < self.last_time",
-  "    ) -> None:\n        previous, self.data = self.data, data\n        if (\n            previous == data\n            and (now - _DUPLICATE_PACKET_SUPPRESSION_INTERVAL) < self.last_time")
+  "    ) -> None:\n        if (\n            self.data == data\n",
+  "    ) -> None:\n        previous, self.data = self.data, data\n        if (\n            previous == data\n")
 V('c16-qu-exemption-dropped', 'C16', 'C16.GUARD', LSF,
   "            and self.last_message is not None\n            and not self.last_message.has_qu_question()\n", "            and self.last_message is not None\n")
 V('c16-interval-ignored', 'C16', 'C16.GUARD', LSF,
@@ -713,8 +713,8 @@ V('c16-interval-ignored', 'C16', 'C16.GUARD', LSF,
 V('c16-interval-le', 'C16', 'C16.GUARD', LSF,
   "            and (now - _DUPLICATE_PACKET_SUPPRESSION_INTERVAL) < self.last_time\n", "            and (now - _DUPLICATE_PACKET_SUPPRESSION_INTERVAL) <= self.last_time\n")
 V('c16-invalid-not-remembered', 'C16', 'C16.GUARD', LSF,
-  "        msg = DNSIncoming(data, addr_port, scope, now)\n        self.data = data\n        self.last_time = now\n        self.last_message = msg\n        if msg.valid is True:",
-  "        msg = DNSIncoming(data, addr_port, scope, now)\n        if msg.valid is True:\n            self.data = data\n            self.last_time = now\n            self.last_message = msg")
+  "        msg = DNSIncoming(data, addr_port, scope, now)\n        self.data = data\n        self.last_time = now\n        self.last_message = msg\n        self.last_addrs = addrs\n        if msg.valid is True:",
+  "        msg = DNSIncoming(data, addr_port, scope, now)\n        if msg.valid is True:\n            self.data = data\n            self.last_time = now\n            self.last_message = msg\n            self.last_addrs = addrs")
 V('c16-time-not-remembered', 'C16', 'C16.GUARD', LSF,
   "        self.data = data\n        self.last_time = now\n        self.last_message = msg", "        self.data = data\n        self.last_message = msg")
 V('c16-remember-after-dispatch', 'C16', 'C16.GUARD', LSF,
@@ -727,8 +727,8 @@ V('c16-shared-protocol', 'C16', 'C16.GUARD', '_engine.py',
   "        shared = AsyncListener(self.zc)\n        for s in reader_sockets:\n            transport, protocol = await loop.create_datagram_endpoint(\n                lambda: shared, sock=s  # type: ignore[arg-type, return-value]\n            )")
 # twins
 V('c16-twin-guard-reordered', 'C16', 'C16.GUARD', LSF,
-  "            self.data == data\n            and (now - _DUPLICATE_PACKET_SUPPRESSION_INTERVAL) < self.last_time\n            and self.last_message is not None\n            and not self.last_message.has_qu_question()",
-  "            self.last_message is not None\n            and data == self.data\n            and now < self.last_time + _DUPLICATE_PACKET_SUPPRESSION_INTERVAL\n            and not self.last_message.has_qu_question()", expect='silent')
+  "            self.data == data\n            # the same bytes from another source are another querier's\n            # datagram, not a link-layer duplicate of the last one\n            and self.last_addrs == addrs\n            and (now - _DUPLICATE_PACKET_SUPPRESSION_INTERVAL) < self.last_time\n            and self.last_message is not None\n            and not self.last_message.has_qu_question()",
+  "            self.last_message is not None\n            and data == self.data\n            and addrs == self.last_addrs\n            and now < self.last_time + _DUPLICATE_PACKET_SUPPRESSION_INTERVAL\n            and not self.last_message.has_qu_question()", expect='silent')
 
 # ---------------------------------------------------------------- C08
 V('c08-text-without-override', 'C08', 'C08.GOODBYE', CORE,
